@@ -6,7 +6,7 @@ DECIDES = ('in SplineGeometry.__eq__ every defining component (parametric dimens
            'vectors, homogeneous control points) is compared between self and other and every such comparison result '
            'can reach `return False` (EQ1/KD3), and an index used to walk the coordinates of compared elements runs over the length of those elements (EQ1 extent: the weight slot is compared too); tolerance bounds are magnitudes, not digit counts (KD2); every '
            'comparison incl. its tolerance is symmetric under exchanging the operands (EQ3); __ne__ negates __eq__ (EQ4); '
-           'no subclass overrides __eq__/__ne__ (EQ5); __deepcopy__ copies every attribute through copy.deepcopy and pre-seeds the memo only for self and the cache, so a copy carries the compared components of its source (IV4).')
+           'no subclass overrides __eq__/__ne__ (EQ5); __deepcopy__ copies every attribute through copy.deepcopy and pre-seeds the memo only for self and the cache, so a copy carries the compared components of its source (IV4); the compared control point storage of a shape is its own - setters store fresh structures (ES1) - and the rational setters store on every normally returning path (WS4), so a change made through the public setters is always visible to the comparison of exactly one shape.')
 NOT_DECIDED = 'nothing numerical is involved; transitivity is not an equivalence property of a tolerance comparison and is not claimed.'
 
 COMPONENTS = {
@@ -389,6 +389,11 @@ def check(m, run):
     # only for the object itself and its cache (shared with C12)
     from .. import rules_state
     rules_state.iv4_deepcopy(m, run)
+    # an edit of one shape through its public setters reaches its own compared storage and nobody else's: the setters store fresh
+    # structures (no sharing with the caller or with another shape built from the same lists) and never drop an assignment
+    from . import c09
+    c09.no_escape(m, run)
+    c09.setters(m, run)
     run.floor('EQ1.compared', 6, 'six components named by the property')
     run.floor('EQ3.symmetry', 4, 'pinned tree has 6 self/other comparisons')
     run.floor('KD2.tolerance-kind', 1, 'knot vectors and control points are compared with a tolerance')
